@@ -120,6 +120,28 @@ EXTENSIONS = {
          "and DNSCrypt servers by trace validation of gate-handler schedules (silent ShutdownBegin / Accept steps, a "
          "connection-refused witness).  Four findings recorded in known_findings.json (DoH3 and DNSCrypt shutdown paths, "
          "DoT accept loop outside the wait group)",
+ "EXT6": "WebSvc.tla / BlockPage.tla / TLSManager.tla (+ trace specs, 8 + 4 + 11 defective variants) -- the web service without the "
+         "linked-IP proxy as a decision table (listener x method x path class x Accept-Encoding class x 72 configurations = "
+         "163 296 vectors -> status, body source, content type, header set, delegated handler), block-page refresh and service "
+         "life cycle as a state machine (failed refresh keeps the page, every server attempted, plain and gzip page swapped "
+         "together), and tlsconfig.DefaultManager as a state machine (Add / Refresh per pair, first-match certificate selection, "
+         "ticket rotation as read / lock / per-configuration apply, sessions resume exactly where their sealing key is "
+         "installed); bound by raw HTTP/1.1 requests to 72 started Services per run, by stepping TLC-generated behaviours on a "
+         "real manager with real certificate and ticket files and real TLS 1.2/1.3 handshakes (certificate seen, resumption "
+         "across rotations and configurations), and by -race readers judged by interval.  Two findings recorded in "
+         "known_findings.json (Refresh stores a nil certificate for an unloadable pair and returns nil; /robots.txt cannot be "
+         "overwritten by static content)",
+ "EXT7": "RefreshWorker.tla / ConnPool.tla / DebugAPI.tla (+ trace specs, 13 + 11 + 6 defective variants, liveness under fairness) -- "
+         "periodic refreshing, the upstream connection pool and the debug API: one action per step of agdservice.RefreshWorker (tick "
+         "taken, start sleep, context made, refresh, close(done), ticker stop, shutdown refresh) with NoOverlap, "
+         "FinalRefreshIffConfigured, FinalBeforeStop, ErrorDoesNotStopLoop, RefreshContextBounded, ShutdownResult and the "
+         "service.Interface contract variant (NoRefreshAfterShutdownReturn); pool.Pool with a ghost ledger created = idle + in use + "
+         "closed, explicit time for the idle time-out and the snapshot / send / drain steps of concurrent Get, Put and Close; the "
+         "request -> (status, jobs run, results) table of POST /debug/api/refresh and /debug/api/cache/clear.  Bound by overlays "
+         "(virtual ticker, timer and clock, three hook calls), gates (Context constructor, Refresher, factory), TLC-generated and "
+         "seeded schedules replayed on the real RefreshWorker and Pool with trace validation at quiescent points, and per-line "
+         "validation of the requests through the real handler.  Three findings recorded in known_findings.json (Put / Close race "
+         "panic, ErrClosed hidden in an errors.Pair, Shutdown does not join the loop)",
 }
 
 
